@@ -75,6 +75,23 @@ let run_membership (toks : string list) : string =
     (match parse_history evs with
      | Some hist -> run_history Model.legacy_differ_step (n self) hist
      | None -> "?bad-case")
+  | "glue" :: self :: evs ->
+    (* the store's glue is a subscriber that reads every change as soon as it is published *)
+    let self = n self in
+    let rec split pre = function
+      | [] -> (List.rev pre, [])
+      | "sub" :: rest -> (List.rev pre, rest)
+      | t :: rest -> split (t :: pre) rest
+    in
+    let pre, post = split [] evs in
+    let hist =
+      { Model.h_pre = List.map parse_snapshot pre;
+        Model.h_post = Model.Read :: List.concat_map (fun t -> [ Model.Snap (parse_snapshot t); Model.Read ]) post }
+    in
+    let live = Model.final_live_with Model.differ_step self hist in
+    let addrs = List.sort_uniq compare (List.map (fun (_, a) -> int_of_n a) live) in
+    let s = "[" ^ String.concat "," (List.map (Printf.sprintf "%x") addrs) ^ "]" in
+    "recv=" ^ s ^ " polled=" ^ s
   | "dist" :: self :: snaps ->
     (* the consumer applies every published change in order (left, then joined): the batch goes to
        the addresses of the live map it then holds *)
